@@ -399,7 +399,7 @@ def timer_s(draw, pid, tier):
     names = draw(st.permutations(SVC_POOL))[:draw(st.integers(0, 3))]
     conf = {"modules": ["iauth_class", "iauth_xquery"], "services": [[n, draw(st.sampled_from(proto.PROTOCOLS))] for n in names],
             "timeout": 1, "rules": [], "logs": [["*.>=info", "file:iauthd.log"]]}
-    kinds = expand(PROFILES["C10"])
+    kinds = expand(PROFILES.get(pid, PROFILES["C10"]))
     kinds = [k for k in kinds if k != "!"]
     rk = REPLY_KINDS["default"]
     ev = []
@@ -442,9 +442,20 @@ def c10_s(draw, pid, tier):
     return base
 
 
+@st.composite
+def with_timers_s(draw, pid, tier):
+    # about one case in 80 uses real one-second timers (a timer that outlives its request, or
+    # fires for a request that was replaced, only shows with real time)
+    if draw(st.integers(0, 79)) == 0:
+        return draw(timer_s(pid, tier))
+    return draw(history_s(pid, tier))
+
+
 def strategy(pid, tier, opts):
     if pid == "C10":
         return c10_s(pid, tier)
+    if pid in ("C01", "C02", "C03"):
+        return with_timers_s(pid, tier)
     return history_s(pid, tier)
 
 
